@@ -51,8 +51,11 @@ class ExprMixin(object):
                 return SV(None, "callable", py=("specfun", name))
             if name in self.C.MACROS:
                 return SV(None, "callable", py=("macro", name))
-        if name in self.C.GLOBALS:
-            gl = self.C.GLOBALS[name]
+        cc = self.cur_contract
+        if (cc is not None and name in cc.globals) or name in self.C.GLOBALS:
+            gl = cc.globals[name] if (cc is not None and name in cc.globals) else self.C.GLOBALS[name]
+            if isinstance(gl, tuple) and gl[0] == "singleton":
+                return self.singleton(gl[1])
             if isinstance(gl, tuple) and gl[0] == "sentinel":
                 return SV(self.u.X(z3.IntVal(-1000 - gl[1])), "sentinel", py=gl[1])
             if isinstance(gl, tuple) and gl[0] == "contract":
@@ -84,6 +87,16 @@ class ExprMixin(object):
         if hasattr(__import__("builtins"), name):
             return SV(None, "callable", py=("builtin", name))
         raise Undecided("unknown global name %r" % name)
+
+    def singleton(self, cls):
+        """A process-wide object (e.g. the `sys` module as holder of stdout/stderr)."""
+        u = self.u
+        c = z3.Int("singleton_%s" % cls)
+        key = "singleton:" + cls
+        if key not in self._closed:
+            self._closed.add(key)
+            self.global_axioms.append(z3.And(c > 0, c < z3.Int("alloc0"), u.typeof(c) == u.class_id(cls)))
+        return SV(u.R(c), "ref", cls=cls)
 
     def ghost_value(self, st, gname):
         z = st.ghost[gname]
